@@ -455,11 +455,11 @@ func (c *C07Case) entryName() string {
 
 // c07Classify maps a crash / unusable error to a listed known finding.
 func c07Classify(c *C07Case, detail string) string {
-	// EOF inside a container while skipping: the native state machine reports a position up to 4 bytes past the input
+	// EOF inside a container while skipping or searching: the native state machine reports a position a few bytes (seen: up to 7) past the input
 	if i := strings.Index(detail, "POSITION-OUTSIDE-INPUT("); i >= 0 && knownListed("C07-eof-position-past-input") {
 		var pos, n int
 		var eof bool
-		if _, err := fmt.Sscanf(detail[i:], "POSITION-OUTSIDE-INPUT(%d of %d,eof=%t)", &pos, &n, &eof); err == nil && pos > n && pos <= n+4 &&
+		if _, err := fmt.Sscanf(detail[i:], "POSITION-OUTSIDE-INPUT(%d of %d,eof=%t)", &pos, &n, &eof); err == nil && pos > n && pos <= n+8 &&
 			!strings.Contains(detail, "UNBOUNDED") && !strings.Contains(detail, "NO-PROGRESS") && !strings.Contains(detail, "MALFORMED") {
 			return "C07-eof-position-past-input"
 		}
